@@ -543,7 +543,7 @@ int main(int argc, char **argv) {
   variant_tag = asan ? "[asan]" : "[fast]";
   R.distinct_bits = 25;
   R.rule =
-      "unit level. For q=2..8 (quick) / 2..12 (thorough) every grid point (s,t) of [0,2^q-2]^2: the 9 directions at cell "
+      "unit level. For q=2..8 (quick) / 2..11 (thorough) every grid point (s,t) of [0,2^q-2]^2: the 9 directions at cell "
       "centre, edge mid-points and corners (offsets 0, +-0.499 cell; directions from the harness's own octahedral "
       "un-mapping in double) x lengths {1, 1e-30, 1e30, 1e-41 (denormal)} through AttributeOctahedronTransform "
       "(encoder path + parameter transport + InverseTransformAttribute); q=9..14 (quick) / 11..20 (thorough): the same "
@@ -558,12 +558,12 @@ int main(int argc, char **argv) {
       "3*(2/(2^q-2))+2e-6; for zero/denormal input only no-NaN and coords in range";
   R.assumptions = {
       "unit level: entropy coding and prediction are not in the loop (separate end-to-end part)",
-      "beyond the full grids (q<=8 quick, q<=12 thorough) only band and lattice points are enumerated, not the whole grid",
+      "beyond the full grids (q<=8 quick, q<=11 thorough) only band and lattice points are enumerated, not the whole grid",
       "a vector counts as denormal when all its components are zero or subnormal floats",
       "DRACO_DCHECK is compiled out (as in every shipped configuration)"};
   R.transition_counters = {"vectors"};
   if (!asan) {
-    for (int q = 2; q <= 12; ++q) add_grid(R, "grid_q" + q2(q), q, q <= 8, true);
+    for (int q = 2; q <= 11; ++q) add_grid(R, "grid_q" + q2(q), q, q <= 8, true);
     for (int q = 9; q <= 20; ++q) add_band_literal(R, "band_q" + q2(q), q, q <= 14, q >= 11);
     for (int q = 9; q <= 30; ++q) add_band_sampled(R, "bandpts_q" + q2(q), q, true, true);
     for (int q = 2; q <= 9; ++q) add_intvec(R, "intvec_q" + q2(q), q, true, true);
